@@ -57,6 +57,8 @@ type vScenario struct {
 	Peer      [][]interface{} `json:"peer"` // ["send",n] ["close"] ["rst"] ["drain",n] ["shutwr"]
 	SndBuf    int             `json:"sndbuf"`
 	LateReq   bool            `json:"latereq"` // client: SetOnRequest is an actor op instead of an option
+	// timers fire as readily as any other step (default: rarely while anything else can move - a timeout is normally far away)
+	EagerTimers bool `json:"eagertimers"`
 }
 
 type vOutEvent struct {
@@ -120,6 +122,22 @@ type vConnRun struct {
 	userClosed bool
 	inUntil    bool
 	mu         sync.Mutex
+}
+
+// writers: number of actors of the scenario that submit output
+func (r *vConnRun) writers() int {
+	n := 0
+	for _, a := range r.sc.Actors {
+		for _, op := range a.Ops {
+			if len(op) > 0 {
+				if k, _ := op[0].(string); k == "Write" || k == "WriteT" || k == "WriteV" || k == "AppendV" {
+					n++
+					break
+				}
+			}
+		}
+	}
+	return n
 }
 
 func (r *vConnRun) ev(e, k string, n, m int, err string) {
@@ -591,12 +609,22 @@ func vRunConnScenario(sc *vScenario) (out []vOutEvent, info map[string]interface
 					ok = 0
 				}
 			}
+			if r.writers() > 1 {
+				// two writing actors: each builds its payload from the stream position it saw when it started; which of the
+				// two Writes is first on the wire is not determined by that, so the content is not judged (amounts still are)
+				ok = 1
+			}
 			r.prd += got
 			r.ev("PeerDrain", "", got, ok, "")
 		}
 	})
 	s.AddTimerEnv("rtimer", c, false, 2)
 	s.AddTimerEnv("wtimer", c, true, 2)
+	if sc.EagerTimers {
+		for _, e := range s.envs {
+			e.lazy = false
+		}
+	}
 
 	s.Run()
 
